@@ -16,17 +16,24 @@ struct ReCase
 };
 
 static const char* SIG_ZEROLEN = "C03:string-regexp:zero-length-match-reported-for-nullable-expression";
-static const char* SIG_NULL_LOOP = "C03:counted-repeat-loop(min>=2)-over-nullable-body:match-missed";
-static const char* SIG_NULL_LOOP_ASSERT = "C03:counted-repeat-loop(min>=2)-over-nullable-body:lazy-anchored:assert-in-yr_re_exec";
+static const char* SIG_NULL_LOOP = "C03:counted-repeat-loop(min>=2):body-re-entered-at-a-split-already-executed-in-the-same-step:match-missed";
+static const char* SIG_NULL_LOOP_ASSERT = "C03:counted-repeat-loop(min>=2):body-re-entered-at-a-split-already-executed-in-the-same-step:lazy-anchored:assert-in-yr_re_exec";
 static const char* SIG_RE_CHAIN = "C03:regexp-split-at-lazy-dot-range-over-200:gap-ignores-newline/wide-units/piece-lengths";
 static const char* SIG_EOL_EMPTY = "C03:matches:empty-match-at-end-of-non-empty-operand-not-tried";
 
 // Known finding: e{n,m} is compiled to prolog + counted loop + epilog (re.c,
-// table in _yr_re_emit); when the loop must run >= 2 times and e can match the
-// empty string through a '*'-like repeat, the second forced pass re-executes a
-// split already executed without consuming input and the thread is killed by
-// the infinite-loop guard, so e.g. /x(a*){4}b/ does not match "xaab" and
-// /(a?){5}/ does not match "a".
+// table in _yr_re_emit).  _yr_re_fiber_sync() keeps one list of "splits already
+// executed" per synchronisation step and kills a thread that arrives at a listed
+// split (the guard against (a*)* style infinite loops).  When the counted loop must
+// run >= 2 times, the forced pass goes REPEAT_END -> loop head inside ONE step, so
+// a thread is killed although it is making progress whenever the loop head can be
+// reached at a split that the same step has already executed:
+//   (a) e can match the empty string: /x(a*){4}b/ misses "xaab", /(a?){5}/ misses "a";
+//   (b) e ends in an unbounded repeat whose back-edge leads (without consuming) to a
+//       split that also sits at the entry of e: /((a|b)+){4}/ misses "aaaa" (the
+//       '+' loops back to the alternation's split, then REPEAT_END re-enters e at
+//       the very same split), /(x?(a|b)+){4}/ likewise.
+// One root cause, one signature; the predicate below is exactly (a) or (b).
 static bool has_unbounded_repeat(const Node& n)
 {
   if (n.k == Node::REPEAT && n.hi < 0)
@@ -36,6 +43,61 @@ static bool has_unbounded_repeat(const Node& n)
       return true;
   return false;
 }
+static bool re_nullable(const Node& n) { return min_span(n) == 0; }
+// split instructions reachable from the entry of n without consuming input
+static void head_splits(const Node& n, std::set<int>& out)
+{
+  switch (n.k)
+  {
+  case Node::CONCAT:
+    for (auto& c : n.ch)
+    {
+      head_splits(c, out);
+      if (!re_nullable(c))
+        break;
+    }
+    break;
+  case Node::ALT:
+    out.insert(n.id);
+    for (auto& c : n.ch) head_splits(c, out);
+    break;
+  case Node::REPEAT:
+    if (n.style == 0 || (n.style != 1 && n.lo == 0))  // '*', '?', {0,m}, {,m}: a split / optional entry comes first
+      out.insert(n.id);
+    head_splits(n.ch[0], out);
+    break;
+  default:
+    break;
+  }
+}
+// split instructions reachable without consuming input from the exits of n through loops inside n
+static void tail_backedge_splits(const Node& n, std::set<int>& out)
+{
+  switch (n.k)
+  {
+  case Node::CONCAT:
+    for (size_t i = n.ch.size(); i-- > 0;)
+    {
+      tail_backedge_splits(n.ch[i], out);
+      if (!re_nullable(n.ch[i]))
+        break;
+    }
+    break;
+  case Node::ALT:
+    for (auto& c : n.ch) tail_backedge_splits(c, out);
+    break;
+  case Node::REPEAT:
+    tail_backedge_splits(n.ch[0], out);
+    if (n.hi < 0 || n.hi > 1)
+    {
+      out.insert(n.id);            // the repeat's own split / jump
+      head_splits(n.ch[0], out);   // the back-edge lands on the body's entry
+    }
+    break;
+  default:
+    break;
+  }
+}
 static bool has_nullable_loop(const Node& n)
 {
   if (n.k == Node::REPEAT && n.style >= 3)
@@ -44,8 +106,17 @@ static bool has_nullable_loop(const Node& n)
     bool prolog = start > 0, split = end > start;
     bool repeat = end > start + 1 || end > 2;
     int loop_min = start - (prolog ? 1 : 0) - (split ? 0 : 1);
-    if (repeat && loop_min >= 2 && min_span(n.ch[0]) == 0)
-      return true;
+    if (repeat && loop_min >= 2)
+    {
+      if (re_nullable(n.ch[0]))
+        return true;
+      std::set<int> h, t;
+      head_splits(n.ch[0], h);
+      tail_backedge_splits(n.ch[0], t);
+      for (int id : h)
+        if (t.count(id))
+          return true;
+    }
   }
   for (auto& c : n.ch)
     if (has_nullable_loop(c))
@@ -412,7 +483,7 @@ std::string run_case(Src& s, CaseInfo& ci)
   {
     // known finding (missed matches, and an assertion failure in yr_re_exec for
     // some lazy variants): excluded by construction so that the search goes on
-    ci.discard = "excluded-known-finding:counted-loop-over-nullable-body";
+    ci.discard = "excluded-known-finding:counted-loop-re-entered-at-executed-split";
     return "";
   }
   int planted = 0, nearmiss = 0;
